@@ -135,6 +135,13 @@ def build_skeleton_tagfile(rng, bones, poses, extra=True):
         more = rng.sample(more, rng.randint(1, 3))
         never = {x[0] for x in more}
         skel_members += more
+    empties = set()
+    if extra and rng.random() < 0.4:
+        # arrays that ARE stored, with no elements: an integer array still carries its element-kind integer, an array of structs its
+        # member presence bits
+        pe = rng.sample([("extraInts", ARRAY | T_INT, None), ("extraBones", ARRAY | T_STRUCT, "hkaBone"), ("extraReals", ARRAY | T_REAL, None), ("extraNames", ARRAY | T_STRING, None)], rng.randint(1, 3))
+        empties = {x[0] for x in pe}
+        skel_members += pe
     if extra and rng.random() < 0.5:
         rng.shuffle(skel_members)
     T("hkaSkeleton", "hkReferencedObject", skel_members)
@@ -172,13 +179,19 @@ def build_skeleton_tagfile(rng, bones, poses, extra=True):
     present = [rng.random() < 0.5 for _ in range(nref)]
     sorder = [m[0] for m in skel_members]
     needed = {"parentIndices", "bones", "referencePose"}
-    flags = list(present) + [(m in needed) or (m not in never and extra and rng.random() < 0.4) for m in sorder]
+    flags = list(present) + [(m in needed) or (m in empties) or (m not in never and extra and rng.random() < 0.4) for m in sorder]
     w.bits(flags)
     inherited_values(present, [0, 5, -3, 123456])
     for mname, f in zip(sorder, flags[nref:]):
         if not f:
             continue
-        if mname == "name":
+        if mname == "extraInts":
+            w.pint(0); w.pint(rng.choice([0, 1, 2]))
+        elif mname == "extraBones":
+            w.pint(0); w.bits([rng.random() < 0.5 for _ in bone_members])
+        elif mname in ("extraReals", "extraNames"):
+            w.pint(0)
+        elif mname == "name":
             w.string(rng.choice(["skeleton", "", bones[0][0]]))
         elif mname == "parentIndices":
             w.pint(len(bones)); w.pint(rng.choice([0, 1, 2]))
